@@ -6,7 +6,7 @@ use super::c10::*;
 use emit_file::verif;
 use hcommon::{Rng, Sexp, Stream, Tier};
 
-const PREFIXES: &[&str] = &["app", "my.app", "a", "app2", "log", "app.web", "\u{fc}n\u{ef}", "app.2024-01-01", "x.y.z"];
+const PREFIXES: &[&str] = &["app", "my.app", "a", "app2", "log", "app.web", "\u{fc}n\u{ef}", "app.2024-01-01", "x.y.z", "syslog", "catalog", "l"];
 const EXTS: &[&str] = &["log", "txt", "gz", "log2", "l", "\u{e9}"];
 
 fn gen_cfg(rng: &mut Rng) -> Cfg {
@@ -59,6 +59,14 @@ fn foreign_names(rng: &mut Rng, cfg: &Cfg, now: &Now) -> Vec<String> {
     ];
     if !shorter.is_empty() {
         all.push(own(&shorter, e, rng));
+    }
+    // names in which the prefix and the extension overlap: they start with the prefix and end with the extension but
+    // are shorter than the two together (`syslog` next to the set `syslog.log`)
+    for k in 1..=e.len().min(p.len()) {
+        if e.is_char_boundary(k) && p.ends_with(&e[..k]) {
+            all.push(format!("{}{}", p, &e[k..]));
+            all.push(format!("{}{}", p, &e[k..]));
+        }
     }
     let k = rng.range(0, 4) as usize;
     let mut out: Vec<String> = Vec::new();
@@ -257,7 +265,11 @@ fn mutate(rng: &mut Rng, name: &str) -> String {
 }
 
 fn gen_member(rng: &mut Rng, _tier: Tier, n: usize) -> Vec<String> {
-    let mut out = Vec::new();
+    // first: names shorter than prefix + extension in which the two overlap, and the bare prefix / extension
+    let mut out: Vec<String> = [("syslog", "log", "syslog"), ("log", "log", "log"), ("l", "l", "l"), ("catalog", "log", "catalog"), ("app", "log", "app"), ("app", "log", "log"), ("app", "log", "app.log"), ("a.b", "b", "a.b"), ("app", "log", "")]
+        .iter()
+        .map(|(p, e, n)| Sexp::tagged("member", vec![Sexp::str(p), Sexp::str(e), Sexp::str(n)]).to_string())
+        .collect();
     while out.len() < n {
         let cfg = gen_cfg(rng);
         let now = gen_start(rng);
